@@ -53,6 +53,13 @@ static int pool_index(const lp_polynomial_t* p) {
   for (int i = 0; i < npool; ++i) if (pool_hash[i] == h && lp_polynomial_eq(pool[i], p)) return i;
   return -1;
 }
+/* the source of a move must be the zero polynomial for every observer: is_zero, equality with a fresh zero, and its hash */
+static int src_is_zero(const lp_polynomial_t* c) {
+  lp_polynomial_t* z = lp_polynomial_new(ctx);
+  int ok = lp_polynomial_is_zero(c) && lp_polynomial_eq(c, z) && lp_polynomial_hash(c) == lp_polynomial_hash(z);
+  lp_polynomial_delete(z);
+  return ok;
+}
 static void sb_elem(int id) { sb_long(id); sb_str("#"); sb_ulong(pool_hash[id]); }
 
 /* pick an element: from a few "hot" slots (collisions), neighbours of them (chains that run into each other), or anywhere */
@@ -93,7 +100,7 @@ static void hset_history(void) {
       sb_str("m:"); sb_elem(id); NOTE("%.3000s", sb_buf);
       int r = lp_polynomial_hash_set_insert_move(set, c);
       /* returns: inserted flag, and whether the source is zero afterwards (only promised when inserted) */
-      ret_long(r * 10 + (lp_polynomial_is_zero(c) ? 1 : 0));
+      ret_long(r * 10 + (r ? src_is_zero(c) : (lp_polynomial_is_zero(c) ? 1 : 0)));
       lp_polynomial_delete(c);
     } else if (op < 72) { /* remove */
       sb_str("r:"); sb_elem(id); NOTE("%.3000s", sb_buf);
@@ -165,7 +172,7 @@ static void heap_history(void) {
     else if (op < 50) {
       lp_polynomial_t* c = lp_polynomial_new_copy(pool[id]);
       sb_str("m:"); sb_long(id); NOTE("%.3000s", sb_buf);
-      lp_polynomial_heap_push_move(heap, c); ret_long((long)lp_polynomial_heap_size(heap) * 10 + (lp_polynomial_is_zero(c) ? 1 : 0));
+      lp_polynomial_heap_push_move(heap, c); ret_long((long)lp_polynomial_heap_size(heap) * 10 + src_is_zero(c));
       lp_polynomial_delete(c);
     } else if (op < 70) {
       sb_str("q:0"); NOTE("%.3000s", sb_buf);
@@ -205,7 +212,7 @@ static void vector_history(void) {
     int id = (int)rnd(npool);
     if (chance(80)) { sb_str("p:"); sb_long(id); lp_polynomial_vector_push_back(v, pool[id]); ret_long((long)lp_polynomial_vector_size(v)); }
     else { lp_polynomial_t* c = lp_polynomial_new_copy(pool[id]); sb_str("m:"); sb_long(id);
-      lp_polynomial_vector_push_back_move(v, c); ret_long((long)lp_polynomial_vector_size(v) * 10 + (lp_polynomial_is_zero(c) ? 1 : 0)); lp_polynomial_delete(c); }
+      lp_polynomial_vector_push_back_move(v, c); ret_long((long)lp_polynomial_vector_size(v) * 10 + src_is_zero(c)); lp_polynomial_delete(c); }
   }
   sb_arrow(); sb_sp(); sb_str(retbuf); sb_str(" | ");
   size_t n = lp_polynomial_vector_size(v); sb_ulong(n); sb_sp();
